@@ -41,7 +41,8 @@ import vlib
 # schemagen features whose output lies (mostly) in the fragment; what falls outside
 # (by-value recursion, non-ASCII names are rewritten) is filtered by `in_frag` itself
 FEATURES = {"bool", "int", "int_format", "number", "string", "null", "str_enum", "object", "closed_object",
-            "map", "array", "nullable_type", "ref", "recursion", "rename", "str_len", "str_pattern", "int_bounds", "set", "fixed_array", "tuple"}
+            "map", "array", "nullable_type", "ref", "recursion", "rename", "str_len", "str_pattern", "int_bounds", "set", "fixed_array", "tuple",
+            "oneof_external"}
 
 CORPUS = os.path.join(vlib.ROOT, "corpus", "convert")
 
@@ -140,6 +141,106 @@ def exhaustive():
                     {"type": "string", "maxLength": 2}):
             docs.append({"definitions": {p: {"type": "object", "properties": {"z": {"type": "boolean"}}, "required": ["z"]},
                                          "Foo": {"type": "object", "properties": {"bar": inl}, "required": ["bar"]}}})
+    return docs
+
+
+# ---------------------------------------------------------------- oneOf -> tagged enums (enums.rs)
+def xs(*names):
+    return {"type": "string", "enum": list(names)}
+
+
+def xt(v, sc, **kw):
+    b = {"type": "object", "properties": {v: sc}, "required": [v], "additionalProperties": False}
+    b.update(kw)
+    return b
+
+
+ONE_PAYLOADS = [
+    {"type": "string"}, {"type": "integer", "format": "uint8"}, {"type": "boolean"}, {"type": "null"}, {},
+    {"type": ["string", "null"]}, {"type": "string", "enum": ["p", "q"]}, {"type": "string", "maxLength": 3},
+    {"type": "object", "properties": {"a": {"type": "integer"}, "b-c": {"type": "string"}}, "required": ["a"]},
+    {"type": "object", "properties": {"a": {"type": "integer"}}, "required": ["a"], "additionalProperties": False},
+    {"type": ["object", "null"], "properties": {"a": {"type": "integer"}}},
+    {"type": "object", "properties": {"in": {"type": "object", "properties": {"k": {"type": "boolean"}}}}},
+    {"type": "object"}, {"type": "object", "additionalProperties": {"type": "integer"}},
+    {"type": "object", "additionalProperties": False},
+    {"type": "array", "items": {"type": "string"}}, {"type": "array", "items": {"type": "string"}, "uniqueItems": True},
+    {"type": "array", "items": {"type": "boolean"}, "minItems": 2, "maxItems": 2},
+    {"type": "array", "items": [{"type": "string"}, {"type": "integer"}], "minItems": 2, "maxItems": 2},
+    {"type": "array", "items": [{"type": "string"}], "minItems": 1, "maxItems": 1},          # one-element tuple
+    {"type": "array", "items": [{"type": "object", "properties": {"k": {"type": "null"}}}], "minItems": 1, "maxItems": 1},
+    {"$ref": "#/definitions/B"}, {"$ref": "#/definitions/E"}, {"type": "array", "items": {"$ref": "#/definitions/E"}},
+    {"oneOf": [xs("n1", "n2"), xt("N3", {"type": "integer"})]},                              # enum in enum
+]
+
+
+def oneof_docs():
+    """externally tagged enums (maybe_externally_tagged_enum / external_variant) and their near misses"""
+    docs = []
+    b = {"type": "object", "properties": {"z": {"type": "boolean"}}}
+
+    def doc(e, **more):
+        d = {"B": b, "E": e}
+        d.update(more)
+        docs.append({"definitions": d})
+    closed = ONE_PAYLOADS[9]
+    opened = ONE_PAYLOADS[8]
+    for pl in ONE_PAYLOADS:
+        doc({"oneOf": [xs("Alpha", "beta-gamma"), xt("Del", pl)]})
+        doc({"oneOf": [xt("v_one", pl), xt("VTwo", {"type": "string"})]})
+        doc({"oneOf": [xt("only", pl)]})
+        doc({"oneOf": [xt("x", pl), xs("y"), xt("z", closed)]})
+        # the enum below a property / an array / a map / as a tuple item
+        doc({"type": "object", "properties": {"e": {"oneOf": [xs("u"), xt("w", pl)]}}, "required": ["e"]})
+        doc({"type": "array", "items": {"oneOf": [xs("u"), xt("w", pl)]}})
+    doc({"oneOf": [xs("a", "b", "c")]})
+    doc({"oneOf": [xs("a"), xs("b", "c")]})
+    doc({"oneOf": [xt("P", closed), xt("Q", closed)]})
+    doc({"oneOf": [xt("P", opened), xt("Q", opened), xs("R")]})
+    doc({"oneOf": [xt("P", closed), xt("Q", opened)]})                       # mixed closedness: outside
+    doc({"oneOf": [xt("P", opened), xt("Q", closed), xs("R")]})              # mixed closedness: outside
+    doc({"type": "object", "additionalProperties": {"oneOf": [xs("u"), xt("w", {"type": "integer"})]}})
+    doc({"type": ["object", "null"], "properties": {"e": {"oneOf": [xs("u", "v")]}}})
+    # identifiers: the 'x' fallback, clashes, keywords, digits
+    doc({"oneOf": [xs("a-b", "a_b"), xt("c", {"type": "string"})]})
+    doc({"oneOf": [xs("a-b"), xt("a_b", {"type": "string"})]})
+    doc({"oneOf": [xs("a", "A")]})                                           # both passes clash: panic
+    doc({"oneOf": [xs("a_b", "aB"), xt("c", {"type": "integer"})]})          # the 'X' pass tells them apart
+    doc({"oneOf": [xs("type", "1st", "Self"), xt("x y", {"type": "integer"})]})
+    # names of the payload types: E_<variant>
+    doc({"oneOf": [xt("b", opened)]}, Eb={"type": "string"})
+    doc({"oneOf": [xt("b", {"type": "string", "enum": ["k"]})]}, EB={"type": "string"})      # name reuse / clash
+    doc({"oneOf": [xt("b", {"type": "string", "enum": ["k"]})]}, Ec={"type": "string"})
+    # recursion: by value (outside), through a Vec (inside)
+    doc({"oneOf": [xs("leaf"), xt("node", {"$ref": "#/definitions/E"})]})
+    doc({"oneOf": [xs("leaf"), xt("node", {"type": "array", "items": {"$ref": "#/definitions/E"}})]})
+    doc({"oneOf": [xs("leaf"), xt("node", {"type": "object", "properties": {"l": {"$ref": "#/definitions/E"}}})]})
+    doc({"oneOf": [xs("leaf"), xt("node", {"type": "array", "items": [{"$ref": "#/definitions/E"}], "minItems": 1, "maxItems": 1})]})
+    # near misses: the real code takes another representation or rejects; the model must classify them out
+    nm = [
+        [xs("V"), xt("V", {"type": "string"})],                                              # duplicate names
+        [xs("a", "a")],
+        [xs("a"), {"type": "object", "properties": {"V": {"type": "string"}}, "required": ["V"]}],           # open branch
+        [xs("a"), {"type": "object", "properties": {"V": {"type": "string"}}, "required": ["V"], "additionalProperties": True}],
+        [xs("a"), {"type": "object", "properties": {"V": {"type": "string"}}, "additionalProperties": False}],   # optional
+        [xs("a"), {"type": "object", "properties": {"V": {"type": "string"}, "W": {"type": "string"}}, "required": ["V"],
+                   "additionalProperties": False}],
+        [xs("a"), {"properties": {"V": {"type": "string"}}, "required": ["V"], "additionalProperties": False}],  # untyped
+        [{"type": "string", "enum": ["a", 1]}], [{"enum": ["a", "b"]}], [{"type": "string", "const": "a"}, xs("b")],
+        [{"type": "integer", "enum": [1, 2]}, xs("b")],
+        [xs("a"), {"type": "null"}], [xt("V", {"type": "string"}), {"type": "null"}],          # maybe_option
+        [xs("a"), {"type": "string"}], [xs("a"), {"type": "integer"}], [{"type": "string"}, {"type": "integer"}],
+        [xs("a"), xt("V", {"type": "string"}, title="T")],
+        [dict(xs("a"), maxLength=3)], [xs("a"), xt("V", {"type": "string"}, minProperties=1)],
+        [{"type": ["string"], "enum": ["a"]}],
+    ]
+    for bs in nm:
+        doc({"oneOf": bs})
+    doc({"oneOf": [xs("a"), xt("V", {"type": "string"})], "title": "T"})
+    doc({"oneOf": [xs("a"), xt("V", {"type": "string"})], "type": "object"})
+    doc({"oneOf": [xs("a"), xt("V", {"type": "string"})], "default": "a"})
+    doc({"oneOf": [xs("a")], "anyOf": [xs("a")]})
+    doc({"anyOf": [xs("a"), xt("V", {"type": "string"})]})
     return docs
 
 
@@ -265,6 +366,16 @@ def mutate_dump(dmp, how):
         for e in ents.values():
             if e["kind"] == "native":
                 e["impls"] = []
+    elif how == "variant":           # a struct payload no longer dissolved into the variant / a tuple payload kept as a type
+        for e in ents.values():
+            if e["kind"] == "enum":
+                for v in e.get("variants", []):
+                    if v["details"]["k"] in ("struct", "tuple"):
+                        v["details"] = {"k": "simple"}
+    elif how == "enumdeny":          # deny_unknown_fields no longer accumulated at the enum
+        for e in ents.values():
+            if e["kind"] == "enum":
+                e["deny"] = not e.get("deny", False)
 
 
 HEADER = (tocoq.COQ_HEADER +
@@ -360,6 +471,12 @@ def run(n=300, seed=1, tag="convert_check", exhaustive_docs=True, show=3):
         for d in exhaustive():
             docs.append(d)
             origin.append("exhaustive")
+    od = oneof_docs()
+    if not exhaustive_docs:        # the quick tier: a seeded sample
+        od = random.Random(seed).sample(od, min(len(od), 50))
+    for d in od:
+        docs.append(d)
+        origin.append("oneof")
     rd = random_docs(n, seed)
     for d in rd:
         docs.append(d)
